@@ -732,6 +732,8 @@ impl MqttClientImpl {
             OperationOptions::Shutdown() => {
                 debug!("Updating desired state to Shutdown");
                 self.protocol_state.reset(&current_time);
+                // the reset has failed any DISCONNECT a previous stop was waiting to flush; nothing is left to wait for
+                self.desired_stop_options = None;
                 self.desired_state = ClientImplState::Shutdown;
             }
             OperationOptions::AddListener(id, listener) => {
